@@ -24,6 +24,17 @@ pub const K_DEFAULT: u8 = 1;
 pub const K_RT_OK: u8 = 2;
 pub const K_RT_ERR: u8 = 3;
 pub const RT_TPL: &str = "a-result";
+/// templates for `completion::Default::with_tpl`
+pub const TPLS: [&str; 3] = ["a-tpl-0", "a-tpl-1 done", "completed by the builder"];
+pub const DEFAULT_END_TPL: &str = "{span_name} completed";
+
+/// One builder call on emit's `completion::Default`.
+#[derive(Serialize, Deserialize, Debug, Clone, PartialEq)]
+pub enum Setter {
+    Lvl(u8),
+    PanicLvl(u8),
+    Tpl(u8),
+}
 
 #[derive(Serialize, Deserialize, Debug, Clone, PartialEq)]
 pub struct CompSpec {
@@ -32,8 +43,46 @@ pub struct CompSpec {
     /// Result-aware completions the span macros pass to `complete_with` in their Ok / Err arms
     /// (`__private_complete_span_ok` / `_err`) over an explicit runtime whose filter is the case's filter
     pub kind: u8,
+    /// level of the Ok / Err completions (kinds 2, 3)
     pub lvl: Option<u8>,
+    /// unused since the builder sequence exists (kept so that older replay files still deserialise)
     pub panic_lvl: Option<u8>,
+    /// kind 1: 0 = `completion::default(emitter, ctxt)`, 1 = `completion::Default::new(emitter, ctxt)`
+    #[serde(default)]
+    pub ctor: u8,
+    /// kind 1: the builder calls applied to it, in order (each kind 0..=2 times; the last call of a kind wins)
+    #[serde(default)]
+    pub builder: Vec<Setter>,
+}
+
+impl CompSpec {
+    pub fn last_lvl(&self) -> Option<emit::Level> {
+        self.builder.iter().rev().find_map(|s| if let Setter::Lvl(l) = s { Some(LEVELS[idx(*l, 4)]) } else { None })
+    }
+
+    pub fn last_panic_lvl(&self) -> Option<emit::Level> {
+        self.builder.iter().rev().find_map(|s| if let Setter::PanicLvl(l) = s { Some(LEVELS[idx(*l, 4)]) } else { None })
+    }
+
+    pub fn last_tpl(&self) -> Option<&'static str> {
+        self.builder.iter().rev().find_map(|s| if let Setter::Tpl(t) = s { Some(TPLS[idx(*t, TPLS.len())]) } else { None })
+    }
+
+    /// the effective `with_panic_lvl` call is followed by a `with_tpl` call
+    pub fn panic_lvl_before_tpl(&self) -> bool {
+        match self.builder.iter().rposition(|s| matches!(s, Setter::PanicLvl(_))) {
+            Some(i) => self.builder[i + 1..].iter().any(|s| matches!(s, Setter::Tpl(_))),
+            None => false,
+        }
+    }
+
+    /// the effective `with_lvl` call is followed by a `with_tpl` or `with_panic_lvl` call
+    pub fn lvl_before_other(&self) -> bool {
+        match self.builder.iter().rposition(|s| matches!(s, Setter::Lvl(_))) {
+            Some(i) => i + 1 < self.builder.len(),
+            None => false,
+        }
+    }
 }
 
 #[derive(Serialize, Deserialize, Debug, Clone, PartialEq)]
@@ -92,7 +141,8 @@ pub struct Comp {
     st: Rc<St>,
     kind: u8,
     lvl: Option<emit::Level>,
-    panic_lvl: Option<emit::Level>,
+    ctor: u8,
+    builder: Vec<Setter>,
 }
 
 impl Comp {
@@ -102,7 +152,8 @@ impl Comp {
             st: st.clone(),
             kind: spec.kind % 4,
             lvl: spec.lvl.map(|l| LEVELS[idx(l, 4)]),
-            panic_lvl: spec.panic_lvl.map(|l| LEVELS[idx(l, 4)]),
+            ctor: spec.ctor,
+            builder: spec.builder.clone(),
         }
     }
 }
@@ -119,12 +170,19 @@ impl Completion for Comp {
             let lvl = self.lvl.unwrap_or(emit::Level::Error);
             emit::__private::__private_complete_span_err(&rt, tpl, &lvl, "a-err").complete(span);
         } else if self.kind == K_DEFAULT {
-            let mut c = completion::Default::<_, _, emit::Level>::new(RecEmitter { id: self.id, st: self.st.clone() }, ctxt());
-            if let Some(l) = self.lvl {
-                c = c.with_lvl(l);
-            }
-            if let Some(l) = self.panic_lvl {
-                c = c.with_panic_lvl(l);
+            let emitter = RecEmitter { id: self.id, st: self.st.clone() };
+            // both public constructors; the builder calls are applied in the generated order
+            let mut c: completion::Default<'static, _, _, emit::Level> = if self.ctor % 2 == 0 {
+                completion::default(emitter, ctxt())
+            } else {
+                completion::Default::new(emitter, ctxt())
+            };
+            for setter in &self.builder {
+                c = match setter {
+                    Setter::Lvl(l) => c.with_lvl(LEVELS[idx(*l, 4)]),
+                    Setter::PanicLvl(l) => c.with_panic_lvl(LEVELS[idx(*l, 4)]),
+                    Setter::Tpl(t) => c.with_tpl(emit::Template::literal(TPLS[idx(*t, TPLS.len())])),
+                };
             }
             c.complete(span);
         } else {
@@ -449,13 +507,28 @@ pub fn check_api(c: &CaseA, cx: &mut Cx) -> Res {
     }
     if kind == K_DEFAULT {
         vassert!(cx, r.via_emitter, "harness/route", "default completion did not go through the emitter");
-        let lvl = |o: Option<u8>| o.map(|l| LEVELS[idx(l, 4)]);
+        let b = &m.comp;
+        cx.class_if(b.builder.len() >= 2, "builder:>=2-setters");
+        cx.class_if(b.panic_lvl_before_tpl(), "builder:with_panic_lvl-before-with_tpl");
+        cx.class_if(b.panic_lvl_before_tpl() && panic_exit, "builder:with_panic_lvl-before-with_tpl/panic-exit");
+        cx.class_if(b.lvl_before_other(), "builder:with_lvl-before-other-setter");
+        cx.class_if(b.builder.iter().filter(|s| matches!(s, Setter::PanicLvl(_))).count() >= 2, "builder:setter-repeated");
+        cx.class_if(b.ctor % 2 == 1, "builder:Default::new");
+        cx.class_if(matches!(c.terminal, Terminal::CompleteWith(_)), "builder:through-complete_with");
+        vassert_eq!(
+            cx,
+            r.tpl.as_str(),
+            b.last_tpl().unwrap_or(DEFAULT_END_TPL),
+            "template-mismatch",
+            "template of a span completed by completion::Default built with {:?}",
+            b.builder
+        );
         if panic_exit {
-            let want = lvl(m.comp.panic_lvl).unwrap_or(emit::Level::Error);
-            vassert_eq!(cx, r.lvl, Some(want), "panic-level-mismatch", "level of a span completed by unwinding");
+            let want = b.last_panic_lvl().unwrap_or(emit::Level::Error);
+            vassert_eq!(cx, r.lvl, Some(want), "panic-level-mismatch", "level of a span completed by unwinding (completion::Default built with {:?})", b.builder);
             vassert!(cx, r.prop("err").is_some(), "panic-err-missing", "span completed by unwinding carries no err: {:?}", r.props);
         } else {
-            vassert_eq!(cx, r.lvl, lvl(m.comp.lvl), "level-mismatch", "level of a normally completed span");
+            vassert_eq!(cx, r.lvl, b.last_lvl(), "level-mismatch", "level of a normally completed span (completion::Default built with {:?})", b.builder);
             vassert!(cx, r.prop("err").is_none(), "unexpected-err", "normally completed span carries err: {:?}", r.props);
         }
     }
